@@ -204,8 +204,11 @@ def tie(ctx):
             if qn(int(r)) and n % qn(int(r)) == 0:
                 hist["exact_multiple"] += 1
             # SpanExact sampled: 1024 * spe is the rounded count itself when it is <= 2^53
-            rounded = (n // qn(int(r))) * qn(int(r))
-            if rounded <= 2 ** 53:
+            q_ = qn(int(r))
+            rounded = (n // q_) * q_ if q_ else None
+            if rounded is None:
+                pass        # non-empty answer for an unquantisable rate: already reported by oracle_point
+            elif rounded <= 2 ** 53:
                 if Fraction(ov[1]) * 1024 == rounded:
                     hist["exact_span"] += 1
                 else:
